@@ -82,7 +82,8 @@ def finish(out):
     for i, v in enumerate(new):
         path = os.path.join(ROOT, 'replays', '%s_%s_%d.json' % (out.prop, out.tier, i))
         with open(path, 'w') as f:
-            json.dump(dict(property=out.prop, signature=v['signature'], what=v['what'], replay=v['replay']), f,
+            json.dump(dict(property=out.prop, signature=v['signature'], what=v['what'], replay=v['replay'],
+                           **({'via': v['via']} if v.get('via') else {})), f,
                       indent=1, default=str)
         lines.append('VIOLATION property=%s replay=%s' % (out.prop, path))
         print('  %s: %s' % (v['signature'], v['what']))
